@@ -66,6 +66,29 @@ func (m *Model) directiveTable() (map[string]int64, string) {
 	return out, ""
 }
 
+// lexerAt: the lexer object that lexer.New(input) leaves behind, advanced by `steps` calls of readChar — a real lexer
+// state, so that every way of looking at the input (l.char, peekChar(), prevChar(), slices of l.input) agrees.
+func (m *Model) lexerAt(input string, steps int) (any, bool) {
+	lexNew := m.PkgFunc("lexer", "New")
+	rc := m.Method("lexer", "Lexer", "readChar")
+	if lexNew == nil || len(lexNew.Params) != 1 || (steps > 0 && rc == nil) {
+		return nil, false
+	}
+	ip := &Interp{m: m, useGlobals: true}
+	lx, ok := ip.Run(lexNew, []any{constant.MakeString(input)})
+	if !ok || ip.stuck != "" || len(ip.lost) > 0 {
+		return nil, false
+	}
+	for i := 0; i < steps; i++ {
+		ip2 := &Interp{m: m, useGlobals: true}
+		ip2.Run(rc, []any{lx})
+		if ip2.stuck != "" || len(ip2.lost) > 0 {
+			return nil, false
+		}
+	}
+	return lx, true
+}
+
 func (m *Model) RunPrefixKW(s *Sink, rule string) {
 	dirs, prob := m.directiveTable()
 	if prob != "" {
@@ -91,7 +114,38 @@ func (m *Model) RunPrefixKW(s *Sink, rule string) {
 			}
 		}
 	}
+	// the predicate is evaluated on a real lexer state: the object lexer.New leaves behind for an input that starts
+	// with the two bytes (the end of the input for a zero byte) — whatever way the lexer looks ahead (l.char and
+	// peekChar(), a slice of the input, ...) reads the same bytes
+	lexNew := m.PkgFunc("lexer", "New")
+	evalConcrete := func(tok int64, c1, c2 byte) (bool, bool) {
+		if lexNew == nil || len(lexNew.Params) != 1 {
+			return false, false
+		}
+		in := ""
+		if c1 != 0 {
+			in = string([]byte{c1})
+			if c2 != 0 {
+				in += string([]byte{c2}) + " tail"
+			}
+		}
+		ip := &Interp{m: m, useGlobals: true}
+		lx, ok := ip.Run(lexNew, []any{constant.MakeString(in)})
+		if !ok || ip.stuck != "" || len(ip.lost) > 0 {
+			return false, false
+		}
+		ip2 := &Interp{m: m, useGlobals: true}
+		res, ok := ip2.Run(fn, []any{lx, constant.MakeInt64(tok)})
+		rc, isC := res.(constant.Value)
+		if !ok || !isC || rc.Kind() != constant.Bool || ip2.stuck != "" {
+			return false, false
+		}
+		return constant.BoolVal(rc), true
+	}
 	eval := func(tok int64, c1, c2 byte) (bool, bool) {
+		if r, ok := evalConcrete(tok, c1, c2); ok {
+			return r, true
+		}
 		res, ok := m.evalPureHook(fn, []constant.Value{constant.MakeInt64(0), constant.MakeInt64(tok)}, func(v ssa.Value) (constant.Value, bool) {
 			switch x := v.(type) {
 			case *ssa.UnOp:
